@@ -28,6 +28,12 @@ E. fit histories    — on ONE DirectPtychography object whose stack is synthesi
 C. fit lattice      — (C10, C12, phi12, rotation) grid in the identifiable domain x 3 masks x 2 detector
    shapes: shifts predicted with the public gradient functions on the rotated detector grid, fed to
    fit_aberrations_from_shifts, return the generating values.
+C2. fit content lattice — the CONTENT of the coefficient set handed to the fit: astigmatism axis at every multiple of pi/8 in
+   [-pi/2, pi/2] (one Cartesian component vanishes exactly at 0, +-pi/4, +-pi/2; the two components have equal magnitude at
+   +-pi/8, +-3pi/8: entries of the fitted matrix coincide or vanish there), magnitude ratios C12/|C10| in {0 exactly (angle
+   given / keys absent), 1e-6, 1e-3, 1e-1, 0.5, 0.9}, the same sets given in Cartesian form (pure C12_a, pure C12_b, both, each
+   sign; through the library's Cartesian -> polar conversion) x rotation (the alphabet of C and +-pi/4) x mask x detector.
+   Judged on Cartesian components (well defined at C12 = 0) and on the reproduced gradient field.
 
 Function class (interpolation argument, DESIGN section 1): per coefficient the surface is a monomial of
 degree <= 6 in the angle times a trigonometric polynomial of degree <= 6 in the azimuth; 9 x 14 grid
@@ -60,7 +66,10 @@ CLAIM = (
     "the autograd derivative of the library's own surface and an independent per-term closed form. Every alias at every entry "
     "point that accepts a user coefficient dictionary gives the same observable result as the canonical symbol "
     "('defocus': d == 'C10': -d). Shifts predicted by the public gradient functions and fed to fit_aberrations_from_shifts "
-    "return the generating defocus, astigmatism and rotation on the whole identifiable grid, also after any earlier call with a "
+    "return the generating defocus, astigmatism and rotation on the whole identifiable grid, also when the astigmatism axis sits at a "
+    "multiple of pi/8 (one Cartesian component exactly zero, or both of equal magnitude), for magnitude ratios C12/|C10| from 0 and "
+    "1e-6 to 0.9 and for sets given as pure C12_a / pure C12_b Cartesian components (compared as Cartesian components and as the "
+    "reproduced gradient field), and also after any earlier call with a "
     "different mask of equal pixel count, other coefficients, wavelength or rotation (call histories on fresh modules). Exploration is the right level: "
     "the property is an identity between closed-form series and a finite set of entry points, decided by a complete lattice."
 )
@@ -77,7 +86,8 @@ RULE = (
     "ascending in radial order), and call histories: every single call, ordered pair (thorough: triple) over 39 fit calls and "
     "37 calls of the other functions, modules re-imported per history, last call judged (non-trivial: an earlier call differs "
     "from the last); (B) entry point x alias x value; (C) detector shape x mask x C10 x C12 x phi12 x rotation "
-    "inside |C12|<|C10|, |rotation|<pi/2. A point is non-trivial when the surface is not identically zero (A), when the "
+    "inside |C12|<|C10|, |rotation|<pi/2, and (C2) detector shape x mask x C10 x form {polar, Cartesian} x ratio C12/|C10| x axis "
+    "(every multiple of pi/8; Cartesian: 8 directions with exact zeros) x rotation. A point is non-trivial when the surface is not identically zero (A), when the "
     "canonical call differs observably from the call without the coefficient (B), or always (C); distinct = distinct "
     "coefficient set / entry-alias-value / fit point."
 )
@@ -127,10 +137,13 @@ VALUES = [0.0, 1.0, -1.0, 1234.5, -1234.5]
 VALUES_Q = [0.0, 1.0, -1234.5]  # quick tier, pairs only
 
 
-def angle_alphabet(m, quick_pairs=False):
+def angle_alphabet(m, quick_pairs=False, special=False):
     if quick_pairs:
         return [0.37, math.pi / m]
-    return [0.0, 0.37, -1.1, math.pi / m]
+    base = [0.0, 0.37, -1.1, math.pi / m]
+    if special:  # azimuths where one Cartesian component vanishes (pi/2m) or both have equal magnitude (pi/4m)
+        base += [math.pi / (2 * m), -math.pi / (2 * m), math.pi / (4 * m)]
+    return base
 
 
 ALPHA = np.linspace(0.0, 0.03, 9)
@@ -622,10 +635,10 @@ def eval_fit_order(case):
     return t
 
 
-def single_states(n, m, values, quick_pairs=False, with_absent=False):
+def single_states(n, m, values, quick_pairs=False, with_absent=False, special=False):
     if m == 0:
         return [[n, m, v, None] for v in values]
-    angs = angle_alphabet(m, quick_pairs)
+    angs = angle_alphabet(m, quick_pairs, special=special)
     st = [[n, m, v, a] for v in values for a in angs]
     if with_absent:
         st += [[n, m, v, None] for v in values]
@@ -637,10 +650,10 @@ def build_surface_items(ctx):
     items = []
     # singles: full alphabets, both wavelengths, angle key also absent
     for (n, m), lam in itertools.product(TERMS, lams):
-        for s in single_states(n, m, VALUES, with_absent=True):
+        for s in single_states(n, m, VALUES, with_absent=True, special=True):
             items.append({"family": "single", "cs": [s], "lam": lam})
         if m:
-            for a in angle_alphabet(m):  # angle given, coefficient absent: must be the zero surface
+            for a in angle_alphabet(m, special=True):  # angle given, coefficient absent: must be the zero surface
                 items.append({"family": "single", "cs": [[n, m, None, a]], "lam": lam})
     # pairs
     vals = VALUES_Q if ctx.quick else VALUES
@@ -1175,6 +1188,106 @@ def eval_fit(item):
     return t
 
 
+# ----------------------------------------------------------------------------- part C2: fit content lattice
+# The CONTENT of the coefficient set handed to the fit: axes where a Cartesian component vanishes exactly or both have the same
+# magnitude (entries of the fitted symmetric matrix coincide / vanish), magnitude ratios from 0 over "below float32 resolution"
+# to the edge of the identifiable domain, polar and Cartesian statement of the same set. phi12 is undefined at C12 = 0, so the
+# verdict is on the Cartesian components C12 (cos 2 phi12, sin 2 phi12) and on the gradient field the fitted values reproduce.
+FITC_RATIOS = [0.0, 1e-6, 1e-3, 1e-1, 0.5, 0.9]
+FITC_PHI = [k * math.pi / 8 for k in range(-4, 5)]
+FITC_ROT = FIT_ROT + [math.pi / 4, -math.pi / 4]
+_S = math.sqrt(0.5)
+FITC_DIRS = [[1.0, 0.0], [_S, _S], [0.0, 1.0], [-_S, _S], [-1.0, 0.0], [-_S, -_S], [0.0, -1.0], [_S, -_S]]  # (C12_a, C12_b) / C12
+FITC_C10_Q = [-200.0, 30.0]
+# float32 fit: worst observed on HEAD over the thorough lattice (12,096 polar points incl. ratio 0.99): Cartesian components
+# 8.0e-7 |C10|, C10 5.3e-7 relative, rotation 5.3e-7 rad, reproduced gradient field 9.8e-7 of its maximum. The astigmatism is
+# judged relative to max(C12, FITC_FLOOR |C10|): at ratio 1e-3 the observed 3.6e-7 |C10| is 3.6e-4 of C12 (28 x below TOL_FIT);
+# at ratio 1e-6 the generating value is below the float32 resolution of the fit and any answer < 1e-5 |C10| is accepted.
+FITC_FLOOR = 1e-3
+
+
+def fit_content_coefs(case):
+    """(coefficient dictionary handed to the gradient functions, generating C12_a, generating C12_b)"""
+    from quantem.diffractive_imaging import complex_probe as cp
+
+    C10 = case["C10"]
+    C12 = case["ratio"] * abs(C10)
+    if case["form"] == "polar":
+        ph = case["phi12"]
+        if ph is None:  # astigmatism keys absent altogether
+            return {"C10": C10}, 0.0, 0.0
+        return {"C10": C10, "C12": C12, "phi12": ph}, C12 * math.cos(2 * ph), C12 * math.sin(2 * ph)
+    ua, ub = case["ab"]
+    cart = {"C10": _t(C10), "C12_a": _t(C12 * ua), "C12_b": _t(C12 * ub)}
+    pol = cp.cartesian_to_polar_aberrations(cart)
+    return {k: float(v) for k, v in pol.items()}, C12 * ua, C12 * ub
+
+
+def fit_content_case(case, verbose=False):
+    from quantem.diffractive_imaging.direct_ptycho_utils import fit_aberrations_from_shifts
+
+    gpts, sampling, lam, mask = fit_geometry(case["det"], case["mask"])
+    C10, rot = case["C10"], case["rot"]
+    co, ga, gb = fit_content_coefs(case)
+    sh = predicted_shifts(gpts, sampling, lam, mask, rot, co)
+    fit = fit_aberrations_from_shifts(sh, mask, lam, gpts, sampling)
+    fa, fb = fit["C12"] * math.cos(2 * fit["phi12"]), fit["C12"] * math.sin(2 * fit["phi12"])
+    C12 = math.hypot(ga, gb)
+    sh_fit = predicted_shifts(gpts, sampling, lam, mask, fit["rotation_angle"], {"C10": fit["C10"], "C12": fit["C12"], "phi12": fit["phi12"]})
+    errs = {
+        "C10": abs(fit["C10"] - C10) / abs(C10),
+        "astigmatism_cartesian_components": math.hypot(fa - ga, fb - gb) / max(C12, FITC_FLOOR * abs(C10)),
+        "rotation_angle": abs(fit["rotation_angle"] - rot),
+        "gradient_field": float((sh_fit - sh).abs().max() / sh.abs().max()),
+    }
+    errs = {k: (v if v == v else float("inf")) for k, v in errs.items()}
+    bad = [k for k in ("C10", "astigmatism_cartesian_components", "gradient_field") if not (errs[k] <= TOL_FIT)] + (["rotation_angle"] if not (errs["rotation_angle"] <= TOL_ROT) else [])
+    fails = []
+    if bad:
+        gen = f"C10={C10}, " + (f"C12_a={ga:.6g}, C12_b={gb:.6g} (Cartesian form, converted by the library to { {k: v for k, v in co.items() if v != 0.0} })" if case["form"] == "cartesian" else f"{ {k: v for k, v in co.items() if k != 'C10'} } (C12_a={ga:.6g}, C12_b={gb:.6g})")
+        fails.append((
+            {"part": "fit_content", "relation": "fit_returns_generating_values", "quantity": bad[0], "form": case["form"]},
+            f"generated {gen}, ratio C12/|C10|={case['ratio']:g}, rotation={rot:.6g} on detector {gpts} mask {case['mask']}: fitted {fit} "
+            f"i.e. C12_a={fa:.6g}, C12_b={fb:.6g} (wrong: {bad}; errors { {k: float(f'{v:.3g}') for k, v in errs.items()} })",
+        ))
+    if verbose:
+        print(f"  generated {co} (C12_a={ga:.6g}, C12_b={gb:.6g}) rotation {rot}\n  fitted    {fit} (C12_a={fa:.6g}, C12_b={fb:.6g})\n  errors    {errs}")
+    return fails, errs, fit, (fa, fb)
+
+
+def fit_content_points(form, ratio):
+    """axis alphabet of one (form, ratio): polar -> phi12 values (None = keys absent), Cartesian -> unit directions"""
+    if form == "polar":
+        return FITC_PHI + ([None] if ratio == 0.0 else [])
+    return [[0.0, 0.0]] if ratio == 0.0 else FITC_DIRS
+
+
+def eval_fit_content(item):
+    """item = (det index, mask name, C10, form, ratio): loops over the axis alphabet and the rotation."""
+    t = Tally()
+    det, mname, C10, form, ratio = item
+    for ax, rot in itertools.product(fit_content_points(form, ratio), FITC_ROT):
+        case = {"part": "fit_content", "det": det, "mask": mname, "C10": C10, "form": form, "ratio": ratio, "rot": rot}
+        case["phi12" if form == "polar" else "ab"] = ax
+        try:
+            fails, errs, fit, (fa, fb) = fit_content_case(case)
+        except Exception as e:
+            t.case(key=case, nontrivial=True, outcome="raised")
+            t.fail({"part": "fit_content", "relation": "fit_runs", "form": form}, case, f"{case}: raised {type(e).__name__}: {e}")
+            continue
+        sc = max(abs(C10) * ratio, 1e-3 * abs(C10))
+        t.case(key=case, nontrivial=True, outcome=[round(fit["C10"], 1), round(fa / sc, 1), round(fb / sc, 1), round(fit["rotation_angle"], 2)])
+        for cls, msg in fails:
+            t.fail(cls, case, msg)
+        t.extra["fit_content_points"] += 1
+        t.extra["fit_content_points_one_component_zero"] += int(ratio > 0 and (form == "cartesian" and 0.0 in ax or form == "polar" and ax is not None and round(ax / (math.pi / 8)) % 2 == 0))
+        worst = max(errs["C10"], errs["astigmatism_cartesian_components"], errs["gradient_field"])  # Counter adds: bucket, not max
+        t.extra[f"fitc_worst_dev_1e-{40 if worst <= 0 else max(0, min(40, int(math.ceil(-math.log10(worst)))))}"] += 1
+        if form == "polar" and ratio == 0.1 and ax == math.pi / 4 and rot == 0.3 and C10 == -200.0 and mname == "disc" and det == 0:
+            t.sample({"fit_content": case, "fitted": fit, "errors": errs}, cap=1)
+    return t
+
+
 def eval_private_shifts(item, seam=True):
     """When the private _return_lateral_shifts exists it must agree with the public composition."""
     t = Tally()
@@ -1629,6 +1742,7 @@ def run(ctx):
         "coefficient values {0, +-1, +-1234.5}, angles {0, 0.37, -1.1, pi/m}, wavelengths at 80 and 300 kV are alphabets (the surface is linear in every C and 1/wavelength-homogeneous)",
         "an alias and its canonical symbol are never given in the same dictionary (ambiguous, not part of the claim)",
         "fit: identifiable domain |C12| < |C10|, |rotation| < pi/2; phi12 compared modulo pi",
+        "fit content lattice: the astigmatism is judged as its Cartesian components relative to max(C12, 1e-3 |C10|) (the fit works in float32: a generating C12 of 1e-6 |C10| is below its resolution); C12 >= |C10| and C10 = 0 are outside the identifiable domain and not run",
         "fit histories: the plain least-squares fit starts from the object's current (optimized) aberrations by design (refinement), so it is only an earlier event; judged last events are the cross-correlation fits, both searches and the least-squares fit with use_initial_state=True",
         "alias differential runs use one seeded 6x7-scan, 21-pixel bright-field problem at 80 kV (VERIF_SEED fills the data)",
     )
@@ -1679,6 +1793,13 @@ def run(ctx):
     if ctx.quick:  # trimmed: every detector x mask still sees every (C10, C12); phi/rot loops are complete inside
         fitems = [it for i, it in enumerate(fitems) if it[0] == 0 or it[1] == "disc"]
     mC = ctx.pmap(eval_fit, fitems, chunk=1, label="fit")
+    # ---- C2: content of the coefficient set handed to the fit (special axes, magnitude ratios, polar / Cartesian statement)
+    geoms = [(d, mk) for d in dets for mk in masks if not ctx.quick or d == 0 or mk == "disc"]
+    c10s = FITC_C10_Q if ctx.quick else FIT_C10
+    citems = [(d, mk, c10, form, r) for (d, mk) in geoms for c10 in c10s for form in ("polar", "cartesian") for r in FITC_RATIOS]
+    mC2 = ctx.pmap(eval_fit_content, citems, chunk=1, label="fit content")
+    if mC2.extra["fit_content_points_one_component_zero"] < 1000 or len(mC2.outcomes) < 200:
+        raise Broken(f"fit content lattice degenerate: {mC2.n} points, {mC2.extra['fit_content_points_one_component_zero']} with one Cartesian component exactly zero, {len(mC2.outcomes)} distinct fits")
     # ---- E: fit / search histories on one object (last fit == the same fit on a fresh object; recovery of the generating values)
     fdepth = 2 if ctx.quick else 3
     mFH = ctx.pmap(eval_fit_history, RH_EVENTS, chunk=1, label="fit histories on one object", depth=fdepth)
@@ -1725,6 +1846,16 @@ def run(ctx):
             "alias_values_d": DVALS,
             "entry_points": [n for n, v in eps.items() if v[1]],
             "fit": {"C10": FIT_C10, "C12": FIT_C12, "phi12": FIT_PHI, "rotation": FIT_ROT, "detectors": [list(d[0]) for d in FIT_DETS], "masks": FIT_MASKS},
+            "fit_content": {
+                "C10": c10s,
+                "ratio_C12_over_abs_C10": FITC_RATIOS,
+                "phi12_polar_form": "k pi/8, k = -4..4; at ratio 0 also with the astigmatism keys absent",
+                "unit_directions_cartesian_form": FITC_DIRS,
+                "rotation": FITC_ROT,
+                "detector_x_mask": [[list(FIT_DETS[d][0]), mk] for d, mk in geoms],
+                "judged_on": f"C10, Cartesian components of the astigmatism relative to max(C12, {FITC_FLOOR:g} |C10|), reproduced gradient field (all {TOL_FIT:g}), rotation ({TOL_ROT:g} rad)",
+                "outside_the_identifiable_domain_not_run": "C12 >= |C10| (ratios 1, 10; C10 = 0): the matrix is not definite and the polar decomposition cannot separate it from the rotation",
+            },
         },
         bounds={"tolerance_float64": TOL64, "tolerance_alias": TOL_ALIAS, "tolerance_fit": TOL_FIT, "tolerance_rotation": TOL_ROT},
         sets_surface=int(mA.n),
@@ -1733,6 +1864,9 @@ def run(ctx):
         fit_order_points=int(mFO.n),
         alias_points=int(mB.n),
         fit_points=int(mC.n),
+        fit_content_points=int(mC2.n),
+        fit_content_points_one_cartesian_component_exactly_zero=int(mC2.extra["fit_content_points_one_component_zero"]),
+        fit_content_worst_deviation_below="1e-%d" % (min([int(k.split("1e-")[1]) for k in mC2.extra if k.startswith("fitc_worst_dev_1e-")] + [99]) - 1),
         fit_histories_on_one_object=int(mFH.n),
         fit_history_depth=fdepth,
         call_histories_fit=int(mH.n),
@@ -1761,6 +1895,9 @@ def replay(ctx, case):
     elif part == "fit":
         fails, errs, fit = fit_case(case, verbose=True)
         for cls, msg in fails:
+            ctx.fail(cls, case, msg)
+    elif part == "fit_content":
+        for cls, msg in fit_content_case(case, verbose=True)[0]:
             ctx.fail(cls, case, msg)
     elif part == "private_shifts":
         t = eval_private_shifts((case["rot"], case["co"]))
